@@ -11,7 +11,7 @@ set_option linter.unusedSimpArgs false
 namespace PortK
 open PortOnK
 
-variable {size : Int → Nat} {rate : ℚ}
+variable {size : Int → Nat} {rate : ℚ} {ql : Option Int}
 variable {s : KS} {a : A} {q : QEntry ℚ} {rest : List (QEntry ℚ)}
 
 theorem txTime_nonneg (hr : 0 < rate) (id : Int) : 0 ≤ txTime size rate id := by
@@ -20,7 +20,7 @@ theorem txTime_nonneg (hr : 0 < rate) (id : Int) : 0 ≤ txTime size rate id := 
 /-- the port's `Initialize` event: `Port.run` starts, finds the store empty and blocks in `store.get()` -/
 theorem kstep_portInit (fuel : Nat) (hk : KInv s a) (hport : a.port = .init q) (hit : a.items = [])
     (hp : popMin s.agenda = some (q, rest)) (hrest : rest.Perm (a.src.entries ++ a.pend.toList)) :
-    ∃ s', step (body size rate) (fuel + 1) s = .ok s' ∧ KInv s' { a with port := .W s.events.size } ∧
+    ∃ s', step (body size rate ql) (fuel + 1) s = .ok s' ∧ KInv s' { a with port := .W s.events.size } ∧
       s'.now = q.time ∧ outsOf s'.trace = outsOf s.trace := by
   have hpk := hk.port
   rw [hport] at hpk
@@ -30,7 +30,7 @@ theorem kstep_portInit (fuel : Nat) (hk : KInv s a) (hport : a.port = .init q) (
   have hres := hk.res
   have hrsz := hk.rsz
   have hwf := openEvent_wf s q rest hk.wf hp
-  have hc0 := hk.c0; have hc1 := hk.c1; have hc2 := hk.c2; have hc3 := hk.c3
+  have hc0 := hk.c0; have hc1 := hk.c1; have hc2 := hk.c2; have hc3 := hk.c3; have hc4 := hk.c4
   rw [step_eq _ _ _ _ _ _ hp (hqe ▸ hcbs)]
   simp only [List.foldl, runCb]
   rw [resume_eq _ _ _ _ _ _ (show (openEvent s q rest).proc? 0 = _ from hproc)]
@@ -39,7 +39,7 @@ theorem kstep_portInit (fuel : Nat) (hk : KInv s a) (hport : a.port = .init q) (
   ksimp [hqe, hgs, hkind, hcbs, hout, hres, hrsz, Nat.ne_of_lt hgs, PPhase.getQ]
   have hfr : ∀ x < s.events.size, (∀ c, (s.ev x).cbs = some c → c ∉ [[Cb.resume 0]]) → x ≠ 1 := by
     intro x _ hc; rintro rfl; exact hc _ hcbs0 (by simp)
-  refine ⟨⟨?_, hrest, ?_, ?_, ?_, ?_, ?_, ?_, ?_, ?_, ?_⟩, ?_⟩
+  refine ⟨⟨?_, hrest, ?_, ?_, ?_, ?_, ?_, ?_, ?_, ?_, ?_, ?_⟩, ?_⟩
   · exact wf_same hwf.1 rfl rfl rfl
   · ksimp [hrsz]
   · ksimp [hrsz, hit, PPhase.getQ]
@@ -54,12 +54,13 @@ theorem kstep_portInit (fuel : Nat) (hk : KInv s a) (hport : a.port = .init q) (
   · ksimp [hc1]
   · ksimp [hc2]
   · ksimp [hc3]
+  · ksimp [hc4]
   · simp [outsOf_push]
 
 /-- the `StoreGet` event of the port: the server resumes with the packet and starts to transmit -/
 theorem kstep_serve (fuel : Nat) (hr : 0 < rate) {g : EvId} {id : Int} (hk : KInv s a) (hport : a.port = .H g id q)
     (hp : popMin s.agenda = some (q, rest)) (hrest : rest.Perm (a.src.entries ++ a.pend.toList)) :
-    ∃ s', step (body size rate) (fuel + 1) s = .ok s' ∧
+    ∃ s', step (body size rate ql) (fuel + 1) s = .ok s' ∧
       KInv s' { a with port := .T s.events.size id ⟨q.time + txTime size rate id, NORMAL, s.eid, s.events.size⟩,
                        busy := true, bsz := size id } ∧
       s'.now = q.time ∧ outsOf s'.trace = outsOf s.trace := by
@@ -72,7 +73,7 @@ theorem kstep_serve (fuel : Nat) (hr : 0 < rate) {g : EvId} {id : Int} (hk : KIn
   have hrsz := hk.rsz
   have htx := txTime_nonneg (size := size) hr id
   have hwf := openEvent_wf s q rest hk.wf hp
-  have hc0 := hk.c0; have hc1 := hk.c1; have hc2 := hk.c2; have hc3 := hk.c3
+  have hc0 := hk.c0; have hc1 := hk.c1; have hc2 := hk.c2; have hc3 := hk.c3; have hc4 := hk.c4
   rw [step_eq _ _ _ _ _ _ hp (hqe ▸ hcbs)]
   simp only [List.foldl, runCb]
   rw [triggerPut_none _ (by show (s.res 0).putQ = []; rw [hres]; rfl)]
@@ -81,7 +82,7 @@ theorem kstep_serve (fuel : Nat) (hr : 0 < rate) {g : EvId} {id : Int} (hk : KIn
   ksimp [hqe, hgs, hkind, hcbs, hout, hres, hrsz, htx, hr, Nat.ne_of_lt hgs]
   have hfr : ∀ x < s.events.size, (∀ c, (s.ev x).cbs = some c → c ∉ [[Cb.trigPut 0, Cb.resume 0]]) → x ≠ g := by
     intro x _ hc; rintro rfl; exact hc _ hcbs0 (by simp)
-  refine ⟨⟨?_, ?_, hrsz, ?_, ?_, ?_, ?_, ?_, ?_, ?_, ?_⟩, ?_⟩
+  refine ⟨⟨?_, ?_, hrsz, ?_, ?_, ?_, ?_, ?_, ?_, ?_, ?_, ?_⟩, ?_⟩
   · exact wf_push1 hwf.1 _ rfl rfl rfl rfl (by show q.time ≤ q.time + txTime size rate id; linarith)
   · exact List.Perm.cons _ hrest
   · rw [hport] at hres; exact hres
@@ -96,13 +97,14 @@ theorem kstep_serve (fuel : Nat) (hr : 0 < rate) {g : EvId} {id : Int} (hk : KIn
   · ksimp [hc1]
   · ksimp
   · ksimp
+  · ksimp [hc4]
   · simp [outsOf_push]
 
 /-- `rate ≤ 0`: the `StoreGet` event of the port: the packet is forwarded in the same burst; the store is empty -/
 theorem kstep_serveNowIdle (fuel : Nat) (hr : ¬ 0 < rate) {g : EvId} {id : Int} (hk : KInv s a)
     (hport : a.port = .H g id q) (hit : a.items = []) (hp : popMin s.agenda = some (q, rest))
     (hrest : rest.Perm (a.src.entries ++ a.pend.toList)) :
-    ∃ s', step (body size rate) (fuel + 1) s = .ok s' ∧
+    ∃ s', step (body size rate ql) (fuel + 1) s = .ok s' ∧
       KInv s' { a with port := .W s.events.size, bytes := a.bytes - (size id : Int), busy := false, bsz := 0,
                        last := some q.time } ∧
       s'.now = q.time ∧ outsOf s'.trace = outsOf s.trace ++ [(id, q.time)] := by
@@ -114,7 +116,7 @@ theorem kstep_serveNowIdle (fuel : Nat) (hr : ¬ 0 < rate) {g : EvId} {id : Int}
   have hres := hk.res
   have hrsz := hk.rsz
   have hwf := openEvent_wf s q rest hk.wf hp
-  have hc0 := hk.c0; have hc1 := hk.c1; have hc2 := hk.c2; have hc3 := hk.c3
+  have hc0 := hk.c0; have hc1 := hk.c1; have hc2 := hk.c2; have hc3 := hk.c3; have hc4 := hk.c4
   rw [step_eq _ _ _ _ _ _ hp (hqe ▸ hcbs)]
   simp only [List.foldl, runCb]
   rw [triggerPut_none _ (by show (s.res 0).putQ = []; rw [hres]; rfl)]
@@ -124,7 +126,7 @@ theorem kstep_serveNowIdle (fuel : Nat) (hr : ¬ 0 < rate) {g : EvId} {id : Int}
   ksimp [hqe, hgs, hkind, hcbs, hout, hres, hrsz, hr, Nat.ne_of_lt hgs, PPhase.getQ, hc0]
   have hfr : ∀ x < s.events.size, (∀ c, (s.ev x).cbs = some c → c ∉ [[Cb.trigPut 0, Cb.resume 0]]) → x ≠ g := by
     intro x _ hc; rintro rfl; exact hc _ hcbs0 (by simp)
-  refine ⟨⟨?_, hrest, ?_, ?_, ?_, ?_, ?_, ?_, ?_, ?_, ?_⟩, ?_⟩
+  refine ⟨⟨?_, hrest, ?_, ?_, ?_, ?_, ?_, ?_, ?_, ?_, ?_, ?_⟩, ?_⟩
   · exact wf_same hwf.1 rfl rfl rfl
   · ksimp [hrsz]
   · ksimp [hrsz, hit, PPhase.getQ]
@@ -139,13 +141,14 @@ theorem kstep_serveNowIdle (fuel : Nat) (hr : ¬ 0 < rate) {g : EvId} {id : Int}
   · ksimp [hc1]
   · ksimp
   · ksimp
+  · ksimp [hc4]
   · simp [outsOf_push]
 
 /-- `rate ≤ 0`: the packet is forwarded in the burst that took it and the next packet is taken at once -/
 theorem kstep_serveNowNext (fuel : Nat) (hr : ¬ 0 < rate) {g : EvId} {id i : Int} {is : List Int} (hk : KInv s a)
     (hport : a.port = .H g id q) (hit : a.items = i :: is) (hp : popMin s.agenda = some (q, rest))
     (hrest : rest.Perm (a.src.entries ++ a.pend.toList)) :
-    ∃ s', step (body size rate) (fuel + 1) s = .ok s' ∧
+    ∃ s', step (body size rate ql) (fuel + 1) s = .ok s' ∧
       KInv s' { a with port := .H s.events.size i ⟨q.time, NORMAL, s.eid, s.events.size⟩, items := is,
                        bytes := a.bytes - (size id : Int), busy := false, bsz := 0, last := some q.time } ∧
       s'.now = q.time ∧ outsOf s'.trace = outsOf s.trace ++ [(id, q.time)] := by
@@ -157,7 +160,7 @@ theorem kstep_serveNowNext (fuel : Nat) (hr : ¬ 0 < rate) {g : EvId} {id i : In
   have hres := hk.res
   have hrsz := hk.rsz
   have hwf := openEvent_wf s q rest hk.wf hp
-  have hc0 := hk.c0; have hc1 := hk.c1; have hc2 := hk.c2; have hc3 := hk.c3
+  have hc0 := hk.c0; have hc1 := hk.c1; have hc2 := hk.c2; have hc3 := hk.c3; have hc4 := hk.c4
   rw [step_eq _ _ _ _ _ _ hp (hqe ▸ hcbs)]
   simp only [List.foldl, runCb]
   rw [triggerPut_none _ (by show (s.res 0).putQ = []; rw [hres]; rfl)]
@@ -167,7 +170,7 @@ theorem kstep_serveNowNext (fuel : Nat) (hr : ¬ 0 < rate) {g : EvId} {id i : In
   ksimp [hqe, hgs, hkind, hcbs, hout, hres, hrsz, hr, Nat.ne_of_lt hgs, PPhase.getQ, hc0]
   have hfr : ∀ x < s.events.size, (∀ c, (s.ev x).cbs = some c → c ∉ [[Cb.trigPut 0, Cb.resume 0]]) → x ≠ g := by
     intro x _ hc; rintro rfl; exact hc _ hcbs0 (by simp)
-  refine ⟨⟨?_, ?_, ?_, ?_, ?_, ?_, ?_, ?_, ?_, ?_, ?_⟩, ?_⟩
+  refine ⟨⟨?_, ?_, ?_, ?_, ?_, ?_, ?_, ?_, ?_, ?_, ?_, ?_⟩, ?_⟩
   · exact wf_push1 hwf.1 _ rfl rfl rfl rfl (le_refl _)
   · exact List.Perm.cons _ hrest
   · ksimp [hrsz]
@@ -183,13 +186,14 @@ theorem kstep_serveNowNext (fuel : Nat) (hr : ¬ 0 < rate) {g : EvId} {id i : In
   · ksimp [hc1]
   · ksimp
   · ksimp
+  · ksimp [hc4]
   · simp [outsOf_push]
 
 /-- the transmission timeout fires and the store is empty: `out.put(packet)`, then the server blocks in `get` -/
 theorem kstep_fireIdle (fuel : Nat) {t : EvId} {id : Int} (hk : KInv s a) (hport : a.port = .T t id q)
     (hit : a.items = []) (hp : popMin s.agenda = some (q, rest))
     (hrest : rest.Perm (a.src.entries ++ a.pend.toList)) :
-    ∃ s', step (body size rate) (fuel + 1) s = .ok s' ∧
+    ∃ s', step (body size rate ql) (fuel + 1) s = .ok s' ∧
       KInv s' { a with port := .W s.events.size, bytes := a.bytes - (size id : Int), busy := false, bsz := 0,
                        last := some q.time } ∧
       s'.now = q.time ∧ outsOf s'.trace = outsOf s.trace ++ [(id, q.time)] := by
@@ -201,7 +205,7 @@ theorem kstep_fireIdle (fuel : Nat) {t : EvId} {id : Int} (hk : KInv s a) (hport
   have hres := hk.res
   have hrsz := hk.rsz
   have hwf := openEvent_wf s q rest hk.wf hp
-  have hc0 := hk.c0; have hc1 := hk.c1; have hc2 := hk.c2; have hc3 := hk.c3
+  have hc0 := hk.c0; have hc1 := hk.c1; have hc2 := hk.c2; have hc3 := hk.c3; have hc4 := hk.c4
   rw [step_eq _ _ _ _ _ _ hp (hqe ▸ hcbs)]
   simp only [List.foldl, runCb]
   rw [resume_eq _ _ _ _ _ _ (show (openEvent s q rest).proc? 0 = _ from hproc)]
@@ -210,7 +214,7 @@ theorem kstep_fireIdle (fuel : Nat) {t : EvId} {id : Int} (hk : KInv s a) (hport
   ksimp [hqe, hgs, hkind, hcbs, hout, hres, hrsz, Nat.ne_of_lt hgs, PPhase.getQ, hc0]
   have hfr : ∀ x < s.events.size, (∀ c, (s.ev x).cbs = some c → c ∉ [[Cb.resume 0]]) → x ≠ t := by
     intro x _ hc; rintro rfl; exact hc _ hcbs0 (by simp)
-  refine ⟨⟨?_, hrest, ?_, ?_, ?_, ?_, ?_, ?_, ?_, ?_, ?_⟩, ?_⟩
+  refine ⟨⟨?_, hrest, ?_, ?_, ?_, ?_, ?_, ?_, ?_, ?_, ?_, ?_⟩, ?_⟩
   · exact wf_same hwf.1 rfl rfl rfl
   · ksimp [hrsz]
   · ksimp [hrsz, hit, PPhase.getQ]
@@ -225,13 +229,14 @@ theorem kstep_fireIdle (fuel : Nat) {t : EvId} {id : Int} (hk : KInv s a) (hport
   · ksimp [hc1]
   · ksimp
   · ksimp
+  · ksimp [hc4]
   · simp [outsOf_push]
 
 /-- the transmission timeout fires and a packet waits: `out.put(packet)`, then `store.get()` is served at once -/
 theorem kstep_fireNext (fuel : Nat) {t : EvId} {id i : Int} {is : List Int} (hk : KInv s a)
     (hport : a.port = .T t id q) (hit : a.items = i :: is) (hp : popMin s.agenda = some (q, rest))
     (hrest : rest.Perm (a.src.entries ++ a.pend.toList)) :
-    ∃ s', step (body size rate) (fuel + 1) s = .ok s' ∧
+    ∃ s', step (body size rate ql) (fuel + 1) s = .ok s' ∧
       KInv s' { a with port := .H s.events.size i ⟨q.time, NORMAL, s.eid, s.events.size⟩, items := is,
                        bytes := a.bytes - (size id : Int), busy := false, bsz := 0, last := some q.time } ∧
       s'.now = q.time ∧ outsOf s'.trace = outsOf s.trace ++ [(id, q.time)] := by
@@ -243,7 +248,7 @@ theorem kstep_fireNext (fuel : Nat) {t : EvId} {id i : Int} {is : List Int} (hk 
   have hres := hk.res
   have hrsz := hk.rsz
   have hwf := openEvent_wf s q rest hk.wf hp
-  have hc0 := hk.c0; have hc1 := hk.c1; have hc2 := hk.c2; have hc3 := hk.c3
+  have hc0 := hk.c0; have hc1 := hk.c1; have hc2 := hk.c2; have hc3 := hk.c3; have hc4 := hk.c4
   rw [step_eq _ _ _ _ _ _ hp (hqe ▸ hcbs)]
   simp only [List.foldl, runCb]
   rw [resume_eq _ _ _ _ _ _ (show (openEvent s q rest).proc? 0 = _ from hproc)]
@@ -252,7 +257,7 @@ theorem kstep_fireNext (fuel : Nat) {t : EvId} {id i : Int} {is : List Int} (hk 
   ksimp [hqe, hgs, hkind, hcbs, hout, hres, hrsz, Nat.ne_of_lt hgs, PPhase.getQ, hc0]
   have hfr : ∀ x < s.events.size, (∀ c, (s.ev x).cbs = some c → c ∉ [[Cb.resume 0]]) → x ≠ t := by
     intro x _ hc; rintro rfl; exact hc _ hcbs0 (by simp)
-  refine ⟨⟨?_, ?_, ?_, ?_, ?_, ?_, ?_, ?_, ?_, ?_, ?_⟩, ?_⟩
+  refine ⟨⟨?_, ?_, ?_, ?_, ?_, ?_, ?_, ?_, ?_, ?_, ?_, ?_⟩, ?_⟩
   · exact wf_push1 hwf.1 _ rfl rfl rfl rfl (le_refl _)
   · exact List.Perm.cons _ hrest
   · ksimp [hrsz]
@@ -268,6 +273,7 @@ theorem kstep_fireNext (fuel : Nat) {t : EvId} {id i : Int} {is : List Int} (hk 
   · ksimp [hc1]
   · ksimp
   · ksimp
+  · ksimp [hc4]
   · simp [outsOf_push]
 
 end PortK
